@@ -39,6 +39,9 @@ func newSolver(kind string, timeout time.Duration) *Solver {
 		cmd = exec.Command("z3", "-in", fmt.Sprintf("-t:%d", ms))
 	case "z3-new":
 		cmd = exec.Command("z3-new", "-in", fmt.Sprintf("-t:%d", ms))
+	case "cvc5-long":
+		// the primary back end again, with the full time limit (floating-point queries need it)
+		cmd = exec.Command("cvc5", "--incremental", "--produce-models", fmt.Sprintf("--tlimit-per=%d", 3*ms))
 	case "cvc5-int":
 		// integer encoding of bit-vector arithmetic (keeps the mod-2^k semantics): decides multiply/divide-by-constant
 		// kernels that stall the bit-blaster
@@ -55,7 +58,7 @@ func newSolver(kind string, timeout time.Duration) *Solver {
 		panic(err)
 	}
 	s := &Solver{kind: kind, cmd: cmd, in: in, out: bufio.NewReaderSize(out, 1<<16), defined: map[int64]int{}, sided: map[int64]int{}, declared: map[string]int{}, timeout: timeout}
-	if kind == "cvc5" || kind == "cvc5-int" {
+	if kind == "cvc5" || kind == "cvc5-int" || kind == "cvc5-long" {
 		s.send("(set-logic ALL)")
 	} else {
 		s.send("(set-option :produce-models true)")
